@@ -5,7 +5,7 @@ from vlib import runner, build, irx
 from .common import ASSUME, TRUSTED
 ENTRIES = ['e_SE3_Identity', 'e_SE3Tangent_Zero', 'e_SE3_Generator', 'e_SE2_InnerWeights', 'e_SE3_InnerWeights', 'e_SGal3_InnerWeights', 'e_SO2_adj', 'e_SO2Tangent_jacs', 'e_R3_adj', 'e_R3Tangent_jacs',
            'e_SO2_setIdentity', 'e_SE3_compose', 'e_SE3_log', 'e_SE3_act', 'e_SO3Tangent_exp', 'e_SE2Tangent_rjac', 'e_Bundle_rjac', 'e_Bundle_compose',
-           'e_SE3_adj', 'e_SE2_adj', 'e_SO3_adj', 'e_SE_2_3_adj', 'e_SGal3_adj', 'e_SE3_compose_J', 'e_SE3_rminus_J', 'e_SE2_exp_J']
+           'e_SE3_adj', 'e_SE2_adj', 'e_SO3_adj', 'e_SE_2_3_adj', 'e_SGal3_adj', 'e_SE3_compose_J', 'e_SE3_rminus_J', 'e_SE2_exp_J'] + [('e_%sTangent_%s' % (g, f)) for g in ('SE3', 'SE2', 'SO3', 'SE_2_3', 'SGal3') for f in ('smallAdj', 'bracket', 'hat')] + ['e_SE3Tangent_jacs', 'e_SO3Tangent_jacs']
 def run(tier, a=None):
     res = runner.Result('C14', tier); known = runner.load_known('C14')
     wd = os.path.join(build.WORK, 'run', 'C14'); os.makedirs(wd, exist_ok=True)
